@@ -20,6 +20,7 @@ import (
 	"fmt"
 	"io"
 	"math/rand"
+	"os"
 	"runtime"
 	"sort"
 	"strings"
@@ -41,8 +42,8 @@ func init() {
 
 type c04Case struct {
 	Op     string `json:"op"`
-	Fault  string `json:"fault"` // none | cut (EOF) | err (read error) | failinput (client->server stream closed by the peer) | failwrite (the client's k-th Write call and all later ones fail)
-	At     int    `json:"at"`    // cut/err: the reply stream ends after this many bytes; failinput: after this many requests were received; failwrite: this many Write calls succeed after the handshake
+	Fault  string `json:"fault"`          // none | cut (EOF) | err (read error) | failinput (client->server stream closed by the peer) | failwrite (the client's k-th Write call and all later ones fail)
+	At     int    `json:"at"`             // cut/err: the reply stream ends after this many bytes; failinput: after this many requests were received; failwrite: this many Write calls succeed after the handshake
 	Err    string `json:"errv,omitempty"` // the error value the failing transport returns (cliErrKinds; "" = the historical fixed value)
 	Racers int    `json:"racers"`
 	Seed   int64  `json:"seed,omitempty"`
@@ -52,6 +53,10 @@ type c04Case struct {
 	// channel is closed after At requests.
 	Via  string `json:"via,omitempty"`
 	Exit string `json:"exit,omitempty"`
+	// Op "flood" (c04_atclose.go): At calls in flight on as many goroutines, Fault close | cut+close | err+close, under
+	// GOMAXPROCS Procs, Trials independent trials (the case stops at the first one that fails).
+	Procs  int    `json:"procs,omitempty"`
+	Trials int    `json:"trials,omitempty"`
 	Opt    string `json:"opt,omitempty"` // option variant (cli_ops.go: which MaxPacket constructor, UseFstat, UseConcurrentReads/Writes, MaxConcurrentRequestsPerFile); "" = MaxPacketUnchecked + the operation's own options
 }
 
@@ -69,7 +74,7 @@ type c04Res struct {
 	NReq     int       `json:"nreq,omitempty"`
 	NWrites  int       `json:"nwrites,omitempty"` // Write calls of the client after the handshake (dry run: how many there are to fail)
 	Calls    []c04Call `json:"calls,omitempty"`
-	CutAt    int       `json:"cut_at"` // bytes really delivered before the stream ended
+	CutAt    int       `json:"cut_at"`    // bytes really delivered before the stream ended
 	InFlight int       `json:"in_flight"` // requests received and unanswered when the stream ended
 	RacerOK  int       `json:"racer_ok"`
 	RacerErr int       `json:"racer_err"`
@@ -95,6 +100,10 @@ func c04Child(idx int, raw json.RawMessage) (any, bool) {
 	var cs c04Case
 	if err := json.Unmarshal(raw, &cs); err != nil {
 		return c04Res{Fails: []c20Fail{{Key: "tie/case", What: err.Error()}}}, false
+	}
+	if cs.Op == c04FloodOp {
+		res := c04RunAtClose(cs)
+		return res, res.ExitNow
 	}
 	res := c04Run(cs, true)
 	return res, res.ExitNow
@@ -326,11 +335,11 @@ func c04Run(cs c04Case, checkGoroutines bool) (res c04Res) {
 
 	// ---- racers ----
 	type racerCall struct {
-		path        string
-		ok          bool
-		afterCut    bool
-		errText     string
-		hang        bool
+		path     string
+		ok       bool
+		afterCut bool
+		errText  string
+		hang     bool
 	}
 	var racerCalls []racerCall
 	var rmu sync.Mutex
@@ -694,7 +703,7 @@ func c04Run(cs c04Case, checkGoroutines bool) (res c04Res) {
 func checkC04(c *lib.Ctx) {
 	r := c.R
 	thorough := c.Tier == "thorough"
-	r.Rule = "scenario = [open] + one operation + [File.Close] on a real Client against a fake server, with 0…8 racing goroutines that keep starting Stat/Lstat/ReadLink/RealPath/Mkdir on the same Client. Operations: cmd/vh/cli_ops.go (single calls; ReadDir; single-chunk, sequential and concurrent multi-chunk ReadAt/WriteTo/WriteAt/Write/ReadFrom incl. readers with Len/Size/Stat/*io.LimitedReader and ReadFromWithConcurrency 0/2/1000; ReadDir/ReadDirContext over several READDIR batches, Walk, Glob, RemoveAll and MkdirAll over a two-level tree). Option variants: every operation under MaxPacketUnchecked (default), MaxPacketChecked, the MaxPacket alias and UseFstat(true); the transfers also under their own variants (UseFstat on/off, UseConcurrentReads false/true, UseConcurrentWrites true/false, MaxConcurrentRequestsPerFile 1/2 and combinations: the table Vars in cli_ops.go) — quick: default variant at full density, own variants at frame boundaries −1/0/+1, universal variants at frame boundaries; thorough: default and own variants at every byte offset, universal variants at the quick density; the fault-free run of every variant must return the same results as the default one. Family ssh: the same scenarios on a Client made by sftp.NewClient over an in-process x/crypto/ssh connection (loopback TCP; session stdin as writer, stderr copier with and without CopyStderrTo, Wait asking the session): the server sends exit-status 0 / 3 / none and closes the channel after N reply bytes, the TCP connection is dropped after N reply bytes, or the channel is closed after k requests; 9 operations (thorough: all). Faults: reply stream ended by EOF (cut) or by a Read error (err) after N bytes — thorough: every N in 0…len(stream); quick: every frame boundary −1/0/+1 and PRNG offsets —; client→server stream closed by the peer after k requests (failinput), every k; the client's k-th Write call and every later one fail while the reply stream stays alive (failwrite), every k (header and payload writes are separate calls). ERROR VALUES of the failing Read/Write: the table cliErrKinds (opaque sentinel and type, io.EOF, %w-wrapped / doubly wrapped / *net.OpError-wrapped / Is-method / errors.Join'ed EOF, io.ErrUnexpectedEOF plain and wrapped, io.ErrClosedPipe, os.ErrClosed in *os.PathError, net.ErrClosed, os.ErrDeadlineExceeded plain and in *net.OpError, EPIPE / ECONNRESET in *net.OpError, bare EPIPE): failinput and failwrite × every k × every value (quick, single-request operations: one value per family + 2 rotating); err × every offset × one rotating value plus every value at 4 offsets (thorough: every offset × every value). With racers: PRNG offsets, values and seeds. Oracles: a call with a request whose reply was not delivered completely, or that could not be written, returns a non-nil error (never a truncated success; Glob, which documents that it swallows I/O errors, exempt); a call whose replies were all delivered returns the result of the fault-free run; Stat, ReadDir, File.ReadAt, File.WriteAt started after the fault fail; nothing hangs (20 s); Wait and Close return; the goroutine table is polled ≤ 5 s for goroutines created by pkg/sftp. Non-trivial = fault injected; distinct by (operation, fault, offset, error value, racers, seed)."
+	r.Rule = "scenario = [open] + one operation + [File.Close] on a real Client against a fake server, with 0…8 racing goroutines that keep starting Stat/Lstat/ReadLink/RealPath/Mkdir on the same Client. Operations: cmd/vh/cli_ops.go (single calls; ReadDir; single-chunk, sequential and concurrent multi-chunk ReadAt/WriteTo/WriteAt/Write/ReadFrom incl. readers with Len/Size/Stat/*io.LimitedReader and ReadFromWithConcurrency 0/2/1000; ReadDir/ReadDirContext over several READDIR batches, Walk, Glob, RemoveAll and MkdirAll over a two-level tree). Option variants: every operation under MaxPacketUnchecked (default), MaxPacketChecked, the MaxPacket alias and UseFstat(true); the transfers also under their own variants (UseFstat on/off, UseConcurrentReads false/true, UseConcurrentWrites true/false, MaxConcurrentRequestsPerFile 1/2 and combinations: the table Vars in cli_ops.go) — quick: default variant at full density, own variants at frame boundaries −1/0/+1, universal variants at frame boundaries; thorough: default and own variants at every byte offset, universal variants at the quick density; the fault-free run of every variant must return the same results as the default one. Family ssh: the same scenarios on a Client made by sftp.NewClient over an in-process x/crypto/ssh connection (loopback TCP; session stdin as writer, stderr copier with and without CopyStderrTo, Wait asking the session): the server sends exit-status 0 / 3 / none and closes the channel after N reply bytes, the TCP connection is dropped after N reply bytes, or the channel is closed after k requests; 9 operations (thorough: all). Faults: reply stream ended by EOF (cut) or by a Read error (err) after N bytes — thorough: every N in 0…len(stream); quick: every frame boundary −1/0/+1 and PRNG offsets —; client→server stream closed by the peer after k requests (failinput), every k; the client's k-th Write call and every later one fail while the reply stream stays alive (failwrite), every k (header and payload writes are separate calls). ERROR VALUES of the failing Read/Write: the table cliErrKinds (opaque sentinel and type, io.EOF, %w-wrapped / doubly wrapped / *net.OpError-wrapped / Is-method / errors.Join'ed EOF, io.ErrUnexpectedEOF plain and wrapped, io.ErrClosedPipe, os.ErrClosed in *os.PathError, net.ErrClosed, os.ErrDeadlineExceeded plain and in *net.OpError, EPIPE / ECONNRESET in *net.OpError, bare EPIPE): failinput and failwrite × every k × every value (quick, single-request operations: one value per family + 2 rotating); err × every offset × one rotating value plus every value at 4 offsets (thorough: every offset × every value). With racers: PRNG offsets, values and seeds. Oracles: a call with a request whose reply was not delivered completely, or that could not be written, returns a non-nil error (never a truncated success; Glob, which documents that it swallows I/O errors, exempt); a call whose replies were all delivered returns the result of the fault-free run; Stat, ReadDir, File.ReadAt, File.WriteAt started after the fault fail; nothing hangs (20 s); Wait and Close return; the goroutine table is polled ≤ 5 s for goroutines created by pkg/sftp. Family flood (c04_atclose.go) — what holds AT THE MOMENT Client.Close RETURNS: N single-request calls (Stat/Lstat/ReadLink/RealPath/Mkdir) in flight on N goroutines (quick: 300, 2000, 20000; thorough: 100 … 5000, 8000, 20000), none answered, two goroutines in Client.Wait, 0…8 racers whose calls are answered; the connection ends by Client.Close (the peer ends its output when its input ends), or by the peer ending the reply stream (EOF / a Read error value of the table) with Client.Close called within 0…120 µs of it, either order; under GOMAXPROCS 1, 2, 4, 8 (thorough: also 3, 16); 2…40 independent trials per case. Right after Close has returned one goroutine dump (stop-the-world: a consistent picture) is taken: no goroutine started by pkg/sftp may still execute package code (one that has only its entry function left is exiting), nobody may still be parked in Wait, no call may still be parked waiting for its result; then, without any further event, Wait and every outstanding call return (the calls with an error), a later call fails, the goroutine table is free of pkg/sftp. Non-trivial = fault injected; distinct by (operation, fault, offset, error value, racers, seed, GOMAXPROCS)."
 	workers := runtime.NumCPU()
 	if workers > 16 {
 		workers = 16
@@ -754,8 +763,13 @@ func checkC04(c *lib.Ctx) {
 			r.Fail(lib.Failure{Kind: "tie", Key: "replay", What: err.Error()})
 			return
 		}
+		if one.Op == c04FloodOp {
+			one.Trials = 5 * max(one.Trials, 1) // the failing interleaving is a schedule: a replay tries harder
+		}
 		cases = []c04Case{one}
 	} else {
+		// family "flood": what holds at the moment Close returns (c04_atclose.go); first, so that they overlap
+		cases = append(cases, c04GenAtClose(rand.New(rand.NewSource(int64(c.Seed)^0x61746373)), thorough, rkinds)...)
 		var dryRaw []json.RawMessage
 		for _, p := range pairs {
 			b, _ := json.Marshal(c04Case{Op: p.op.Name, Fault: "none", Opt: p.variant})
@@ -993,6 +1007,16 @@ func checkC04(c *lib.Ctx) {
 			}
 		}
 	}
+	if fam := os.Getenv("VH_C04_FAMILY"); fam != "" && c.Replay == "" {
+		// debugging aid: only the flood family ("flood") or everything else ("noflood")
+		var keep []c04Case
+		for _, cs := range cases {
+			if (cs.Op == c04FloodOp) == (fam == "flood") {
+				keep = append(keep, cs)
+			}
+		}
+		cases = keep
+	}
 	selftest := -1
 	if c.Replay == "" {
 		selftest = len(cases)
@@ -1027,7 +1051,12 @@ func checkC04(c *lib.Ctx) {
 			}
 			continue
 		}
-		r.Case(fmt.Sprintf("%s/%s%s@%d/r%d/s%d/e%s%s", cliOpKey(cs.Op, cs.Opt), cs.Via, cs.Fault, cs.At, cs.Racers, cs.Seed, cs.Err, cs.Exit), cs.Fault != "none")
+		r.Case(fmt.Sprintf("%s/%s%s@%d/r%d/s%d/e%s%s/p%d", cliOpKey(cs.Op, cs.Opt), cs.Via, cs.Fault, cs.At, cs.Racers, cs.Seed, cs.Err, cs.Exit, cs.Procs), cs.Fault != "none")
+		if cs.Op == c04FloodOp {
+			r.Hist(fmt.Sprintf("at-close-return/calls-in-flight/%d", cs.At))
+			r.Hist(fmt.Sprintf("at-close-return/gomaxprocs/%d", cs.Procs))
+			r.Hist("at-close-return/ended-by/" + cs.Fault)
+		}
 		if cs.Via != "" {
 			r.Hist("constructor/NewClient-over-" + cs.Via + "/" + cs.Fault + map[bool]string{true: "/" + cs.Exit, false: ""}[cs.Fault == "cut" && cs.Exit != ""])
 		} else {
